@@ -98,28 +98,6 @@ def validate_chunk(ctx, family, module, cfg, traces, tag, max_rejects=3, timeout
     return out
 
 
-def validate_traces(ctx, family, module, cfg, traces, parallel=6, tag="t", max_rejects=3):
-    """Split into `parallel` contiguous chunks validated concurrently (one TLC worker each)."""
-    if not traces:
-        return {}
-    k = max(1, min(parallel, len(traces)))
-    size = (len(traces) + k - 1) // k
-    chunks = [(i, traces[i:i + size]) for i in range(0, len(traces), size)]
-    result = {}
-    lock = threading.Lock()
-
-    def work(arg):
-        start, part = arg
-        r = validate_chunk(ctx, family, module, cfg, part, "%s%d" % (tag, start), max_rejects=max_rejects)
-        with lock:
-            for i, v in r.items():
-                result[start + i] = v
-
-    with ThreadPoolExecutor(max_workers=k) as ex:
-        list(ex.map(work, chunks))
-    return result
-
-
 def classify(trace, off):
     """Structural class of the first event of `trace` (raw lines) the spec could not explain."""
     ev = json.loads(trace[off])
@@ -147,29 +125,77 @@ def record_violation(ctx, sig, detail, inp, case):
         ctx.viol[sig] = {"v": "viol", "sig": sig, "detail": detail, "input": inp, "case": case}
 
 
-def judge_traces(ctx, family, tmodule, design_cfg, contract_cfg, traces, metas, classify_fn, parallel=6, tag="t"):
-    """Validate against the design spec; re-validate rejected ones against the contract.
-    metas[i]: dict describing trace i (src, nt, id, cand...).  Returns per-trace verdicts."""
+def judge_chunk(ctx, family, tmodule, design_cfg, contract_cfg, traces, metas, classify_fn, tag):
+    """One batch: design spec first.  The first trace the design cannot explain is re-validated alone
+    against the contract: rejected -> ("viol", ..) and the rest of the batch is left unvalidated (one
+    violation decides the run); accepted -> ("drift", ..) and the rest of the batch is validated against
+    the contract only (the design is known not to describe this tree)."""
     verdict = {}
-    r = validate_traces(ctx, family, tmodule, design_cfg, traces, parallel=parallel, tag=tag)
-    for i, v in sorted(r.items()):
+    r = validate_chunk(ctx, family, tmodule, design_cfg, traces, tag + "d", max_rejects=1)
+    bad = None
+    for i in range(len(traces)):
+        v = r.get(i)
         if v is None:
             verdict[i] = ("ok", None, None)
         elif v == "unvalidated":
             verdict[i] = ("unvalidated", None, None)
         else:
-            off, line = v
-            cls = classify_fn(traces[i], off)
-            rc = validate_chunk(ctx, family, tmodule, contract_cfg, [traces[i]], "%sc%d" % (tag, i), max_rejects=1)
-            if rc[0] is None:
-                verdict[i] = ("drift", "design:" + cls, "design spec stops at line %d %s; the contract accepts the trace" % (off, line))
+            bad = i
+    if bad is None:
+        return verdict
+    off, line = r[bad]
+    rc = validate_chunk(ctx, family, tmodule, contract_cfg, [traces[bad]], tag + "c", max_rejects=1)
+
+    def viol(i, coff, cline):
+        return ("viol", "trace:" + classify_fn(traces[i], coff),
+                "trace (%s): first event the contract cannot explain is line %d: %s\n%s" % (
+                    metas[i].get("src"), coff, cline, "\n".join(traces[i][max(0, coff - 30):coff + 1])))
+
+    if rc[0] is not None:
+        verdict[bad] = viol(bad, rc[0][0], rc[0][1])
+        return verdict
+    verdict[bad] = ("drift", "design:" + classify_fn(traces[bad], off),
+                    "the design spec stops at line %d %s; the contract accepts the trace" % (off, line))
+    rest = list(range(bad + 1, len(traces)))
+    if rest:
+        r2 = validate_chunk(ctx, family, tmodule, contract_cfg, [traces[i] for i in rest], tag + "r", max_rejects=1)
+        for k, i in enumerate(rest):
+            v = r2.get(k)
+            if v is None:
+                verdict[i] = ("ok-contract", None, None)
+            elif v == "unvalidated":
+                verdict[i] = ("unvalidated", None, None)
             else:
-                coff, cline = rc[0]
-                cls = classify_fn(traces[i], coff)
-                verdict[i] = ("viol", "trace:" + cls,
-                              "trace %s: first event the contract cannot explain is line %d: %s\n%s" % (
-                                  metas[i].get("src"), coff, cline, "\n".join(traces[i][max(0, coff - 25):coff + 1])))
+                verdict[i] = viol(i, v[0], v[1])
     return verdict
+
+
+def judge_traces(ctx, family, tmodule, design_cfg, contract_cfg, traces, metas, classify_fn, parallel=6, tag="t"):
+    """Contiguous batches validated concurrently (one TLC worker each). -> {i: (verdict, sig, detail)}"""
+    if not traces:
+        return {}
+    k = max(1, min(parallel, len(traces)))
+    size = (len(traces) + k - 1) // k
+    starts = list(range(0, len(traces), size))
+    result = {}
+    lock = threading.Lock()
+    errs = []
+
+    def work(start):
+        try:
+            r = judge_chunk(ctx, family, tmodule, design_cfg, contract_cfg, traces[start:start + size],
+                            metas[start:start + size], classify_fn, "%s%d" % (tag, start))
+            with lock:
+                for i, v in r.items():
+                    result[start + i] = v
+        except BaseException as e:  # noqa
+            errs.append(e)
+
+    with ThreadPoolExecutor(max_workers=k) as ex:
+        list(ex.map(work, starts))
+    if errs:
+        raise errs[0]
+    return result
 
 
 # ----------------------------------------------------------------------------- the check
@@ -181,10 +207,12 @@ def run(ctx):
     quick = ctx.tier == "quick"
     cases = os.path.join(ctx.scratch, "replay-cases.ndjson")
     sim_cases = os.path.join(ctx.scratch, "replay-sim.ndjson")
-    only_replay_group = None
-    if ctx.replay and (ctx.replay.get("case_record") or {}).get("mode") == "replay":
-        only_replay_group = ctx.replay["case_record"]["line"]
-
+    if ctx.replay:
+        # a schedule of free-running goroutines cannot be re-executed exactly: --replay re-runs the seeded
+        # campaign (same tier, same seed => same command sequences, same stress programs) against the
+        # current tree, without the model-level part
+        quick = (ctx.replay.get("tier") or ctx.tier) == "quick"
+        ctx.seed = int(ctx.replay.get("seed") or ctx.seed)
     # 1. the design is right (model level) + behaviours to replay, concurrently
     def mc_safety():
         for cfg in (["Watcher_quick.cfg", "Watcher_quick_aux.cfg"] if quick else
@@ -200,7 +228,7 @@ def run(ctx):
         if not quick:
             ctx.tlc("conc", "WatcherReplay", "WatcherReplay_mid.cfg", workers=2, cases_path=cases, timeout_s=2400)
         ctx.tlc("conc", "WatcherReplay", "WatcherReplay_sim.cfg", workers=1, cases_path=sim_cases,
-                simulate="num=%d" % (150 if quick else 3000), depth=400, seed=ctx.seed, timeout_s=1200)
+                simulate="num=%d" % (150 if quick else 2000), depth=400, seed=ctx.seed, timeout_s=1200)
 
     errs = []
 
@@ -212,9 +240,9 @@ def run(ctx):
                 errs.append(e)
         return g
 
-    if only_replay_group is None:
+    if True:
         fs = (mc_safety, mc_live, mc_replay)
-        if os.environ.get("VERIF_DEV_SKIP_MC"):      # development aid (mutant runs): binding only
+        if os.environ.get("VERIF_DEV_SKIP_MC") or ctx.replay:      # binding only (development aid / --replay)
             fs = (mc_replay,)
         ths = [threading.Thread(target=guard(f)) for f in fs]
         for t in ths:
@@ -223,9 +251,6 @@ def run(ctx):
             t.join()
         if errs:
             raise errs[0]
-    else:
-        open(cases, "w").write("\n".join(only_replay_group) + "\n")
-        open(sim_cases, "w").close()
 
     h = ctx.build_harness("conch")
 
@@ -239,8 +264,8 @@ def run(ctx):
 
     # 3. code -> spec: free-running histories
     res_st, tr_st = [], []
-    if only_replay_group is None:
-        res_st = ctx.run_harness(h, ["watcher-stress", "-n", "300" if quick else "4000"], None, timeout_s=2400)
+    if True:
+        res_st = ctx.run_harness(h, ["watcher-stress", "-n", "300" if quick else "2500"], None, timeout_s=2400)
         tr_st = split_traces(os.path.join(ctx.scratch, "wtraces-stress.ndjson"))
 
     traces, metas = [], []
@@ -267,15 +292,6 @@ def run(ctx):
     verdict = judge_traces(ctx, "conc", "WatcherTrace", "WatcherTrace.cfg", "WatcherTraceContract.cfg",
                            traces, metas, classify, parallel=6)
 
-    # group lines for replay files of steered candidates
-    groups = {}
-    if any(m.get("v") == "cand" for m in metas):
-        for path in (cases, sim_cases):
-            with open(path) as f:
-                for line in f:
-                    line = line.strip()
-                    if line:
-                        groups.setdefault(cmd_key(json.loads(line)), []).append(line)
     nval = {"stress": 0, "replay": 0, "replay-sim": 0}
     for i, m in enumerate(metas):
         v, sig, detail = verdict.get(i, ("unvalidated", None, None))
@@ -283,27 +299,27 @@ def run(ctx):
         if m.get("v") == "cand":
             # the steered outcome is not among the model's outcomes for this command sequence
             if v == "viol":
-                path = cases if src == "replay" else sim_cases
-                with open(path) as f:
-                    first = f.readlines()[m["idx"]]
-                grp = groups.get(cmd_key(json.loads(first)), [first.strip()])
                 record_violation(ctx, sig, "steered replay: " + m.get("detail", "") + "\n" + detail,
-                                 m.get("input"), {"mode": "replay", "line": grp})
+                                 m.get("input"), {"mode": "replay", "line": traces[i]})
                 ctx.evaluations += 1
                 ctx.validated += 1
             elif v == "drift":
                 results.append({"v": "drift", "sig": sig, "detail": m.get("detail", "") + " | " + detail, "nt": m.get("nt")})
-            elif v == "ok":
+            elif v in ("ok", "ok-contract"):
+                # the steered observation is not one the model lists for this command prefix, yet the
+                # recorded history is explained by the spec: model != code on something the property does
+                # not pin (e.g. when exactly the wake-up is sent)
                 if m.get("exhaustive"):
-                    raise core.Inconclusive("C40: steered outcome not listed by the exhaustive export but accepted by "
-                                            "trace validation (machinery inconsistent): " + str(m.get("detail", "")))
-                results.append({"v": "ok", "nt": m.get("nt"), "input": m.get("input"),
-                                "detail": "outcome outside the simulated sample, accepted by trace validation"})
+                    results.append({"v": "drift", "sig": m.get("sig"), "nt": m.get("nt"),
+                                    "detail": str(m.get("detail", "")) + " | recorded history accepted by WatcherTrace"})
+                else:
+                    results.append({"v": "ok", "nt": m.get("nt"), "input": m.get("input"),
+                                    "detail": "outcome outside the simulated sample, accepted by trace validation"})
             continue
-        if v == "ok":
+        if v in ("ok", "ok-contract"):
             nval[src] += 1
             results.append({"v": "ok", "nt": m.get("nt"), "input": {"trace": src, "events": m.get("events")},
-                            "detail": "trace accepted by WatcherTrace (design)"})
+                            "detail": "trace accepted by WatcherTrace (%s)" % ("design" if v == "ok" else "contract only")})
         elif v == "drift":
             results.append({"v": "drift", "sig": sig, "detail": detail, "nt": m.get("nt")})
         elif v == "viol":
@@ -312,8 +328,7 @@ def run(ctx):
             ctx.evaluations += 1
             ctx.validated += 1
         else:
-            ctx.skipped += 0
-            ctx.notes.append("trace %s/%s not validated (after %d rejected traces in its batch)" % (src, m.get("id"), 3))
+            ctx.extra["traces_left_unvalidated_after_a_violation"] = ctx.extra.get("traces_left_unvalidated_after_a_violation", 0) + 1
     ctx.tally(results)
     ctx.extra["traces_accepted"] = nval
     ctx.exhaustive = False
